@@ -27,7 +27,7 @@ type childScript struct {
 	Fifo      string `json:"fifo"`
 	Go        string `json:"go"` // FIFO on which the parent says "go" once the answered calls have returned
 	IgnoreInt bool   `json:"ignoreInt"`
-	Init      string `json:"init"`   // how the handshake goes: "" answers initialize | silent (reads on, never answers) | error | garbage | exit (leaves when initialize arrives)
+	Init      string `json:"init"`   // how the handshake goes: "" answers initialize | silent (reads on, never answers) | noread (never reads its stdin at all) | error | garbage | exit (leaves when initialize arrives)
 	Helper    int    `json:"helper"` // > 0: before anything else start a helper process (this binary again, sleeping that many seconds) that inherits this process' stderr and is left behind
 }
 
@@ -121,6 +121,10 @@ func childMain(raw string) {
 		} else {
 			startHelper(sc.Helper)
 		}
+	}
+	if sc.Init == "noread" {
+		mark("init")
+		hang()
 	}
 	in := bufio.NewReaderSize(os.Stdin, 1<<20)
 	dec := json.NewDecoder(in)
